@@ -686,7 +686,7 @@ func errShape(s string) string {
 func runC10Loads(ctx *core.Ctx) {
 	r := ctx.Rng
 	// ---- valid models in every layout: must load, and the returned project must satisfy `Consistent`
-	for i := 0; i < ctx.Pick(120, 4000); i++ {
+	for i := 0; i < ctx.Pick(100, 2500); i++ {
 		m := genValidModel(r)
 		for _, kind := range layoutKinds {
 			l := layOut(r, m, kind)
@@ -696,7 +696,7 @@ func runC10Loads(ctx *core.Ctx) {
 	}
 	// ---- one minimal violating edit per rule × placement, on several valid base models
 	edits := c10Edits()
-	for i := 0; i < ctx.Pick(2, 60); i++ {
+	for i := 0; i < ctx.Pick(2, 30); i++ {
 		m := genValidModel(r)
 		for _, e := range edits {
 			for _, pl := range placements {
@@ -717,7 +717,7 @@ func runC10Loads(ctx *core.Ctx) {
 			p := optGraphAbs(n, k)
 			reps := 1
 			if repsFor(p) > 6 {
-				reps = 48
+				reps = ctx.Pick(48, 24)
 			}
 			ctx.Count("load:digraph+optional-disabled:n=" + strconv.Itoa(n))
 			ctx.Add("c10.loadGraph", graphLoadArgs{Proj: p, Split: r.Intn(1 << 30), Reps: reps})
@@ -730,7 +730,7 @@ func runC10Loads(ctx *core.Ctx) {
 		ctx.Count("load:digraph:n=" + strconv.Itoa(nn))
 		ctx.Add("c10.loadGraph", graphLoadArgs{Proj: p, Split: r.Intn(1 << 30), Reps: 1})
 	}
-	for i := 0; i < ctx.Pick(150, 6000); i++ {
+	for i := 0; i < ctx.Pick(120, 3000); i++ {
 		n := 4 + r.Intn(2)
 		// sparse random digraphs on 4–5 services (dense ones are almost always cyclic)
 		k := 0
